@@ -34,7 +34,7 @@ class C12(RunProp):
                     c["cfg"] = dict(c["cfg"], select=rng.sample(outs, rng.randint(1, len(outs))), onMissing="error")
             for runner in ("sync", "async"):
                 yield {"kind": "run", "program": c["program"], "values": c["values"], "cfg": c.get("cfg", {}), "runner": runner, "seed": rng.randint(0, 10**6),
-                       "yielding": runner == "async" and rng.random() < 0.5}
+                       "yielding": (rng.choice([False, True, True, "syncmethods"]) if runner == "async" else False)}
             if rng.random() < 0.25:
                 m = gen.gen_map_node(rng)
                 inner = [m["program"][0]]
@@ -54,18 +54,18 @@ class C12(RunProp):
                     map_err = "raise" if rng.random() < 0.7 else map_err
                 for runner in ("sync", "async"):
                     yield {"kind": "map", "program": inner, "values": vals, "mapOver": mo, "mode": "zip", "mapErr": map_err,
-                           "cfg": {}, "runner": runner, "seed": rng.randint(0, 10**6), "yielding": runner == "async" and rng.random() < 0.5,
+                           "cfg": {}, "runner": runner, "seed": rng.randint(0, 10**6), "yielding": (rng.choice([False, True, True, "syncmethods"]) if runner == "async" else False),
                            "k": rng.choice([None, None, 2, 3]) if runner == "async" else None}
 
     def impl(self, case: dict) -> Any:
         ctl = sched.Controller("random", case["seed"]) if case["runner"] == "async" else None
         if case["kind"] == "map":
             o = impl.map_case(case["program"], case["values"], case["mapOver"], case["mode"], case["mapErr"], case["cfg"], case["runner"], ctl=ctl, record_events=True,
-                              yielding_recorder=bool(case.get("yielding")), max_concurrency=case.get("k"))
+                              yielding_recorder=case.get("yielding"), max_concurrency=case.get("k"))
             o["status"] = "build-error" if o.get("status") == "build-error" else ("failed" if o["raised"] is not None else "completed")
             return o
         return impl.run_case(case["program"], None, case["values"], case["cfg"], case["runner"], record_events=True, ctl=ctl,
-                             yielding_recorder=bool(case.get("yielding")))
+                             yielding_recorder=case.get("yielding"))
 
     def request(self, case: dict) -> dict:
         if case["kind"] == "map":
